@@ -54,28 +54,32 @@ var plans = map[string]Plan{
 	"C03": {
 		Stages: []Stage{
 			{Harness: "hdec", Config: "default", Quick: 60000, Thorough: 2000000, QuickSec: 75, ThoroughSec: 1500, MemGB: 4, HeapGB: 1},
+			// generated decoder programs against a reference interpreter, over a disk with short reads and aborts
+			{Harness: "hapi", Config: "default", Quick: 40000, Thorough: 3000000, QuickSec: 25, ThoroughSec: 900, MemGB: 4, HeapGB: 1},
 		},
-		Rule: "one run = one decode of a corpus sample (<= 16 KiB, thorough: sometimes <= 256 KiB) with its natural format, the probe or a foreign format, force on/off, through decode.Decode over IOBitReadSeeker(simulated disk) so that every field read is a disk call, under one tape-chosen storage fault: abort at the k-th disk call of the fault-free decode (transient EIO, persistent EIO, early EOF, cancel), truncation at a byte offset (consecutive run indices sweep small files densely), bit-rot of 1..3 bits, overwrite with a boundary byte (offsets biased to the first 64 bytes and to offsets the fault-free decode read with widths 1..8), a zeroed / duplicated / dropped block of 1..512 bytes; the fault-free decode of each pair is checked too; oracle C03 on every returned tree, complete or partial: ranges non-negative and (unless synthetic) inside the value's buffer, a compound's range (inner range for a buffer root) spans every non-synthetic non-root child, struct fields have unique names, non-decreasing start, index -1 and are found by name, array elements are numbered by position, child.parent is the parent, the root's range starts at the decode range; distinct = (pair, fault) fingerprint; every faulted decode is non-trivial",
+		Rule: "one run = one decode of a corpus sample (<= 16 KiB, thorough: sometimes <= 256 KiB) with its natural format, the probe or a foreign format, force on/off, through decode.Decode over IOBitReadSeeker(simulated disk) so that every field read is a disk call, under one tape-chosen storage fault: abort at the k-th disk call of the fault-free decode (transient EIO, persistent EIO, early EOF, cancel), truncation at a byte offset (consecutive run indices sweep small files densely), bit-rot of 1..3 bits, overwrite with a boundary byte (offsets biased to the first 64 bytes and to offsets the fault-free decode read with widths 1..8), a zeroed / duplicated / dropped block of 1..512 bytes; the fault-free decode of each pair is checked too; oracle C03 on every returned tree, complete or partial: ranges non-negative and (unless synthetic) inside the value's buffer, a compound's range (inner range for a buffer root) spans every non-synthetic non-root child, struct fields have unique names, non-decreasing start, index -1 and are found by name, array elements are numbered by position, child.parent is the parent, the root's range starts at the decode range || hapi: one run = one decoder program generated together with its expected tree by a reference interpreter (plain integer positions, no I/O): FieldU / FieldRawLen leaves (bit or byte granular, zero length now and then), FieldStruct, FieldArray, an array loop until the end, FramedFn, LimitedFn, RangeFn, SeekAbs/SeekRel with decode functions (a third of them to the current position) and without, FieldFormat / FieldFormatLen / FieldFormatRange with generated nested formats (also in probing groups whose first formats fail; also on an empty remainder), FieldFormatBitBuf and FieldStructRootBitBufFn over generated nested buffers; one program in three has one operation aimed past a boundary, a duplicate field name or a Fatalf; run by the real decode package over IOBitReadSeeker(simulated disk) twice with short reads (1..5 bytes per call) and six times with an abort (transient EIO, persistent EIO, early EOF, cancel) at a drawn disk call; oracle: the fault-free tree - names, kinds, numbering, exact bit ranges, integer values, gap fields - equals the reference tree, a program that fails by design fails and keeps exactly the partial tree built so far, after an abort every field of the returned tree is a field of the reference tree (same path, range and bits), plus the structural oracles above on every tree; distinct = (pair, fault) fingerprint; every faulted decode is non-trivial",
 		Real: hdecReal,
 		Stub: hdecStub,
 		Assumptions: append([]string{
-			"claims the fault dimension (partial trees of failed, forced, truncated and corrupted decodes); the last sentence of the statement (generated decoder programs against a reference interpreter) is a pure function of the program and is not claimed",
+			"claims the fault dimension (partial trees of failed, forced, truncated and corrupted decodes); the last sentence of the statement (decoders written against the API) is claimed for the generated programs of hapi, each run under short reads and aborts at disk calls, for the combinators listed in the rule (scalar mappers, endianness and the try-variants are not generated)",
 			"after an injected EIO the buffer length cannot be read back, so the inside-buffer clause is skipped for that run",
 		}, commonAssumptions...),
-		ExpectProbes: []string{"partial_tree_with_error", "values_walked", "abort_landed", "truncation", "bitrot"},
+		ExpectProbes: []string{"partial_tree_with_error", "values_walked", "abort_landed", "truncation", "bitrot", "seek_to_current_position", "nested_format_on_empty_range", "programs_failing_by_design", "partial_tree_after_abort", "trees_equal_reference"},
 	},
 	"C04": {
 		Stages: []Stage{
 			{Harness: "hdec", Config: "default", Quick: 60000, Thorough: 2000000, QuickSec: 75, ThoroughSec: 1500, MemGB: 4, HeapGB: 1},
+			// generated decoder programs against a reference interpreter, over a disk with short reads and aborts
+			{Harness: "hapi", Config: "default", Quick: 40000, Thorough: 3000000, QuickSec: 25, ThoroughSec: 900, MemGB: 4, HeapGB: 1},
 		},
-		Rule: "one run = one decode of a corpus sample (<= 16 KiB, thorough: sometimes <= 256 KiB) with its natural format, the probe or a foreign format, force on/off, through decode.Decode over IOBitReadSeeker(simulated disk) so that every field read is a disk call, under one tape-chosen storage fault: abort at the k-th disk call of the fault-free decode (transient EIO, persistent EIO, early EOF, cancel), truncation at a byte offset (consecutive run indices sweep small files densely), bit-rot of 1..3 bits, overwrite with a boundary byte (offsets biased to the first 64 bytes and to offsets the fault-free decode read with widths 1..8), a zeroed / duplicated / dropped block of 1..512 bytes; the fault-free decode of each pair is checked too; oracle C04 for the top-level buffer and every nested buffer root made by a format decode: a bitmap of the leaf ranges of that root covers [0, length) completely, no gap leaf intersects a field leaf, and (top level) the bits of every gap equal the stored bits of its range; a failed decode that returns a tree must show the undecoded tail as gaps; distinct = (pair, fault) fingerprint; every faulted decode is non-trivial",
+		Rule: "one run = one decode of a corpus sample (<= 16 KiB, thorough: sometimes <= 256 KiB) with its natural format, the probe or a foreign format, force on/off, through decode.Decode over IOBitReadSeeker(simulated disk) so that every field read is a disk call, under one tape-chosen storage fault: abort at the k-th disk call of the fault-free decode (transient EIO, persistent EIO, early EOF, cancel), truncation at a byte offset (consecutive run indices sweep small files densely), bit-rot of 1..3 bits, overwrite with a boundary byte (offsets biased to the first 64 bytes and to offsets the fault-free decode read with widths 1..8), a zeroed / duplicated / dropped block of 1..512 bytes; the fault-free decode of each pair is checked too; oracle C04 for the top-level buffer and every nested buffer root made by a format decode: a bitmap of the leaf ranges of that root covers [0, length) completely, no gap leaf intersects a field leaf, and (top level) the bits of every gap equal the stored bits of its range; a failed decode that returns a tree must show the undecoded tail as gaps || hapi: one run = one decoder program generated together with its expected tree by a reference interpreter (plain integer positions, no I/O): FieldU / FieldRawLen leaves (bit or byte granular, zero length now and then), FieldStruct, FieldArray, an array loop until the end, FramedFn, LimitedFn, RangeFn, SeekAbs/SeekRel with decode functions (a third of them to the current position) and without, FieldFormat / FieldFormatLen / FieldFormatRange with generated nested formats (also in probing groups whose first formats fail; also on an empty remainder), FieldFormatBitBuf and FieldStructRootBitBufFn over generated nested buffers; one program in three has one operation aimed past a boundary, a duplicate field name or a Fatalf; run by the real decode package over IOBitReadSeeker(simulated disk) twice with short reads (1..5 bytes per call) and six times with an abort (transient EIO, persistent EIO, early EOF, cancel) at a drawn disk call; oracle: the fault-free tree - names, kinds, numbering, exact bit ranges, integer values, gap fields - equals the reference tree, a program that fails by design fails and keeps exactly the partial tree built so far, after an abort every field of the returned tree is a field of the reference tree (same path, range and bits), gap fields are exactly the maximal uncovered runs computed from a bitmap of the reference leaves; distinct = (pair, fault) fingerprint; every faulted decode is non-trivial",
 		Real: hdecReal,
 		Stub: hdecStub,
 		Assumptions: append([]string{
-			"claims the fault dimension; the exhaustive small-buffer check of the gap computation is a pure function and is not claimed",
+			"claims the fault dimension; gap computation is compared with a bitmap complement on the generated programs of hapi (buffers of 1..40 bytes, bit granular) and by coverage bitmaps on corpus decodes, not exhaustively",
 			"after an injected EIO or early EOF coverage and gap content are not compared (the buffer cannot be read back)",
 		}, commonAssumptions...),
-		ExpectProbes: []string{"buffers_covered", "gaps_checked", "partial_tree_with_error", "truncation"},
+		ExpectProbes: []string{"buffers_covered", "gaps_checked", "partial_tree_with_error", "truncation", "trees_equal_reference", "nested_buffer"},
 	},
 	"C18": {
 		Stages: []Stage{
